@@ -59,6 +59,7 @@ int main(int argc, char** argv) {
             if (!dec) return;
             for (int pretty = 0; pretty < 2; ++pretty) {
                 mj::Value t = hz::rec("trace"); t.set("idx", (int64_t)idx); t.set("enc", "transcode-json"); t.set("src", f); t.set("in", c["b"]);
+                if (line.find("hpn_malformed") != std::string::npos) t.set("dev", "ubjson-hpn-malformed-input");   // classification of the input by the C07 spec (known C07 finding), not an oracle
                 std::string text; bool ok = true; std::string err;
                 try { if (pretty) j.dump_pretty(text); else j.dump(text); } catch (const ser_error& e) { ok = false; err = e.code().message(); } catch (const json_exception& e) { ok = false; err = e.what(); }
                 t.set("out", ok ? "ok" : "err"); t.set("err", err); t.set("bytes", bv::raw(text.data(), text.size()));
